@@ -904,6 +904,72 @@ func scanRangeIdx(c *core.Ctx) []ob {
 					}
 					return related == ""
 				})
+				if related == "" {
+					// both pinned to one constant degree before the loop: `Y.Degree() != k -> error` (in the function or in a
+					// predicate of the package that receives Y) and `X.Resize(k, …)`
+					pinned := map[string]string{}
+					var pin func(body *ast.BlockStmt, sub map[string]string, limit token.Pos, depth int)
+					pin = func(body *ast.BlockStmt, sub map[string]string, limit token.Pos, depth int) {
+						name := func(e ast.Expr) string {
+							t := exprString(e)
+							if r, ok := sub[t]; ok {
+								return r
+							}
+							return t
+						}
+						ast.Inspect(body, func(z ast.Node) bool {
+							if z == nil || (limit != token.NoPos && z.Pos() >= limit) {
+								return true
+							}
+							switch v := z.(type) {
+							case *ast.IfStmt:
+								if be, ok := unparen(v.Cond).(*ast.BinaryExpr); ok && be.Op == token.NEQ && leavesWithError(v.Body) {
+									if call, ok := unparen(be.X).(*ast.CallExpr); ok {
+										if s, ok := unparen(call.Fun).(*ast.SelectorExpr); ok && s.Sel.Name == "Degree" {
+											if lit, ok := unparen(be.Y).(*ast.BasicLit); ok {
+												pinned[name(s.X)] = lit.Value
+											}
+										}
+									}
+								}
+							case *ast.CallExpr:
+								if s, ok := unparen(v.Fun).(*ast.SelectorExpr); ok && s.Sel.Name == "Resize" && len(v.Args) >= 1 {
+									if lit, ok := unparen(v.Args[0]).(*ast.BasicLit); ok {
+										pinned[strings.TrimSuffix(name(s.X), ".El()")] = lit.Value
+									}
+								}
+								if depth < 1 {
+									if hf := calleeFunc(info, v); hf != nil && hf.Pkg() == pk.Types {
+										for _, f2 := range pk.Syntax {
+											for _, d2 := range f2.Decls {
+												hd, ok := d2.(*ast.FuncDecl)
+												if !ok || hd.Body == nil || info.Defs[hd.Name] != types.Object(funcOrigin(hf)) || hd == fd {
+													continue
+												}
+												hs := map[string]string{}
+												ai := 0
+												for _, fl := range hd.Type.Params.List {
+													for _, nm := range fl.Names {
+														if ai < len(v.Args) {
+															hs[nm.Name] = exprString(v.Args[ai])
+														}
+														ai++
+													}
+												}
+												pin(hd.Body, hs, token.NoPos, depth+1)
+											}
+										}
+									}
+								}
+							}
+							return true
+						})
+					}
+					pin(fd.Body, nil, rs.Pos(), 0)
+					if kx, ok := pinned[X]; ok && pinned[Y] == kx {
+						related = "both pinned to degree " + kx + " before the loop"
+					}
+				}
 				props := metaProps(fkey)
 				if related != "" {
 					out = append(out, withProps(okOb("RANGEIDX", key, c.Rel(rs.Pos()), related, true), props...))
